@@ -27,6 +27,8 @@ NProf   == atoi(IOEnv.WOWM_NPROF)
 MaxLen  == atoi(IOEnv.WOWM_MAXLEN)
 Only    == IOEnv.WOWM_ONLY          \* "" or one message name
 Deep    == IOEnv.WOWM_DEEP = "1"    \* thorough: more flag subsets / enumerators
+FaultMode == IOEnv.WOWM_FAULTS       \* "0" | "c03" | "c04": also print fault records (see Fault families)
+FaultEvery == atoi(IOEnv.WOWM_FAULT_EVERY)  \* faults are derived from every n-th behaviour
 
 VARIABLES root, prof, stack, scopes, out, fi, regions, sizepos, sizew, phase, note, ev
 
@@ -619,8 +621,113 @@ SizeAgrees ==
     (phase = "done" /\ root.ctx.world /\ Len(Body) + OpLen <= 32767) =>
         Header[1] * 256 + Header[2] = Len(Body) + OpLen
 
+---------------------------------------------------------------------------
+(***************************************************************************)
+(* Fault families.  A fault is a canonical encoding altered at ONE chosen   *)
+(* place.  C04 (specified faults - the decoder of the definition must fail  *)
+(* in a specified way): an enum-typed field carrying, at its full wire      *)
+(* width, a number that is not a declared value; a constant-sized message   *)
+(* with a different body length; an opcode not defined for the direction    *)
+(* and version.  C03 (totality - any outcome but a crash): every field set  *)
+(* to extreme patterns, truncation at every field boundary with and without *)
+(* a consistent header, trailing garbage, corrupt compressed payloads.      *)
+(***************************************************************************)
+SetField(b, e, nb) == [j \in 1..Len(b) |-> IF j > e.at /\ j <= e.at + e.len THEN nb[j - e.at] ELSE b[j]]
+
+LessLE(a, b) == \E i \in 1..Len(a) : a[i] < b[i] /\ \A j \in (i + 1)..Len(a) : a[j] = b[j]
+RECURSIVE IncLE(_)
+IncLE(b) == IF b = <<>> THEN <<>>
+            ELSE IF b[1] < 255 THEN <<b[1] + 1>> \o Tail(b) ELSE <<0>> \o IncLE(Tail(b))
+
+DeclSet(d, w) == {SubSeq(d.enums[j].le, 1, w) : j \in 1..Len(d.enums)}
+
+BadEnumValues(d, w) ==
+    LET D == DeclSet(d, w)
+        mx == CHOOSE x \in D : \A y \in D : ~LessLE(x, y)
+        gaps == {n \in 0..Len(d.enums) : LE(n, w) \notin D}   \* pigeonhole: one of them is undeclared
+        gap == IF gaps = {} THEN {} ELSE {LE(CHOOSE n \in gaps : \A m \in gaps : n <= m, w)}
+        alias == IF w > d.w
+                 THEN {[x EXCEPT ![d.w + 1] = 1] : x \in D}      \* declared value + 2^(8 * base width)
+                 ELSE {}
+    IN ({Rep(255, w), IncLE(mx)} \cup gap \cup alias) \ D
+
+HeaderFor(n) ==
+    IF root.ctx.world THEN SizeField(n + OpLen) \o SubSeq(RootObj.op, 1, OpLen)
+    ELSE SubSeq(RootObj.op, 1, 1)
+
+FaultBase(fk, site, hdr, body, outcome, val) ==
+    [kind |-> "fault", fk |-> fk, site |-> site, id |-> root.id, name |-> RootObj.name, exp |-> root.ctx.exp,
+     lv |-> root.ctx.lv, dir |-> root.dir, prof |-> prof, hdr |-> hdr, body |-> body, regions |-> BodyRegions,
+     msgcomp |-> RootObj.comp, outcome |-> outcome, val |-> val]
+
+EnumEvents == {j \in 1..Len(ev) : ev[j].k = "enum" /\ ev[j].tid > 0}
+
+(* self.size fields and message-level compression shift offsets: events are body-relative only when *)
+(* the body is the plain walk output                                                               *)
+PlainBody == ~RootObj.comp
+
+C04EnumFaults ==
+    IF ~PlainBody THEN {}
+    ELSE UNION {{FaultBase("enum", ev[j].n, Header, SetField(Body, ev[j], v), "err_enum", v) :
+                    v \in BadEnumValues(Objs[ev[j].tid], ev[j].len)} : j \in EnumEvents}
+
+(* the constant-sized (message, context) pairs are computed once by MCConst.tla and passed in *)
+ConstRoots == JsonDeserialize(IOEnv.WOWM_CONST)
+IsConstSized == root.ctx.world /\ PlainBody /\ regions = <<>>
+                /\ \E j \in 1..Len(ConstRoots) : ConstRoots[j].id = root.id /\ ConstRoots[j].exp = root.ctx.exp
+
+C04SizeFaults ==
+    IF ~IsConstSized THEN {}
+    ELSE LET b == Body IN
+         {FaultBase("size", "longer", HeaderFor(Len(b) + 1), b \o <<0>>, "err_any", <<>>),
+          FaultBase("size", "longer4", HeaderFor(Len(b) + 4), b \o <<0, 0, 0, 0>>, "err_any", <<>>)}
+         \cup (IF Len(b) >= 1
+                THEN {FaultBase("size", "shorter", HeaderFor(Len(b) - 1), SubSeq(b, 1, Len(b) - 1), "err_any", <<>>),
+                      FaultBase("size", "empty", HeaderFor(0), <<>>, "err_any", <<>>)}
+                ELSE {})
+
+C03Patterns(w) == {Rep(0, w), Rep(255, w), <<1>> \o Rep(0, w - 1), Rep(255, w - 1) \o <<127>>, <<2>> \o Rep(0, w - 1)}
+
+C03Faults ==
+    IF ~PlainBody THEN {FaultBase("garbage", "tail", HeaderFor(Len(Body) + 3), Body \o <<255, 0, 7>>, "any", <<>>)}
+    ELSE LET b == Body IN
+         UNION {{FaultBase("set", ev[j].n, Header, SetField(b, ev[j], v), "any", v) :
+                    v \in (IF ev[j].len = 0 THEN {} ELSE C03Patterns(ev[j].len))} : j \in 1..Len(ev)}
+         \cup (IF regions # <<>> THEN {}
+               ELSE {FaultBase("truncate", ev[j].n, HeaderFor(ev[j].at), SubSeq(b, 1, ev[j].at), "any", <<>>) : j \in 1..Len(ev)}
+                    \cup {FaultBase("truncate_keep_header", ev[j].n, Header, SubSeq(b, 1, ev[j].at), "any", <<>>) : j \in 1..Len(ev)}
+                    \cup {FaultBase("garbage", "tail", HeaderFor(Len(b) + 3), b \o <<255, 0, 7>>, "any", <<>>),
+                          FaultBase("header_size", "plus1", HeaderFor(Len(b) + 1), b, "any", <<>>),
+                          FaultBase("header_size", "zero", HeaderFor(0), b, "any", <<>>)})
+
+FaultsDue == phase = "done" /\ prof = 0 /\ FaultMode # "0" /\ (Len(out) + root.id) % FaultEvery = 0
+
+FaultSet == IF FaultMode = "c04" THEN C04EnumFaults \cup C04SizeFaults ELSE C03Faults
+
+(* undefined opcodes: around every defined one and at the extremes, per context and direction *)
+OpInt(o, n) == IF n = 1 THEN o.op[1] ELSE o.op[1] + 256 * o.op[2]
+DefinedOps(c, d) == {OpInt(Objs[i], IF c.world THEN 2 ELSE 1) :
+                       i \in {k \in 1..Len(Objs) : IsMsg(Objs[k]) /\ ~Objs[k].test /\ InCtx(Objs[k], c) /\ d \in Dirs(Objs[k])}}
+UndefinedOps(c, d) ==
+    LET D == DefinedOps(c, d)
+        top == IF c.world THEN 65535 ELSE 255
+        cand == {n + 1 : n \in D} \cup {n - 1 : n \in {m \in D : m > 0}} \cup {0, top, top - 1}
+    IN {n \in cand : n \notin D /\ n >= 0 /\ n <= top}
+OpFault(c, d, n) ==
+    [kind |-> "fault", fk |-> "opcode", site |-> "opcode", id |-> 0, name |-> "", exp |-> c.exp, lv |-> c.lv,
+     dir |-> d, prof |-> 0,
+     hdr |-> IF c.world
+             THEN <<0, IF d = "client" THEN 4 ELSE 2>> \o LE(n, IF d = "client" THEN 4 ELSE 2)
+             ELSE LE(n, 1),
+     body |-> <<>>, regions |-> <<>>, msgcomp |-> FALSE, outcome |-> "err_opcode", val |-> LE(n, 4)]
+OpFaults == UNION {UNION {{OpFault(c, d, n) : n \in UndefinedOps(c, d)} : d \in {"client", "server"}} : c \in Ctxs}
+
+ASSUME (FaultMode = "c04" /\ Shard = 0) =>
+         \A f \in OpFaults : PrintT("REPLAY " \o ToJson(f))
+
 EmitRecord ==
     /\ (phase = "done") => PrintT("REPLAY " \o ToJson(Record))
+    /\ FaultsDue => \A f \in FaultSet : PrintT("REPLAY " \o ToJson(f))
     /\ (phase = "skip") => PrintT("REPLAY " \o ToJson([kind |-> "skip", id |-> root.id, name |-> RootObj.name,
                                                        exp |-> root.ctx.exp, lv |-> root.ctx.lv, dir |-> root.dir,
                                                        why |-> note]))
